@@ -55,10 +55,12 @@ func init() {
 		return w.newInput(concStr(w, args[0], "vrt name"), "bool", sortBool)
 	})
 	reg(vrtPkg+".Float64", func(w *World, th *Thread, fn *ssa.Function, args []Value) Value {
-		t := w.newInput(concStr(w, args[0], "vrt name"), "float64", sortFP)
+		v := w.newInput(concStr(w, args[0], "vrt name"), "float64", sortFP)
 		// exclude NaN and infinities: resource quantities are finite numbers
-		w.assertPC(w.tf.def(sortBool, "(not (or (fp.isNaN "+t.S+") (fp.isInfinite "+t.S+")))"))
-		return t
+		if t, ok := v.(*Term); ok {
+			w.assertPC(w.tf.def(sortBool, "(not (or (fp.isNaN "+t.S+") (fp.isInfinite "+t.S+")))"))
+		}
+		return v
 	})
 	reg(vrtPkg+".String", func(w *World, th *Thread, fn *ssa.Function, args []Value) Value {
 		return w.newInput(concStr(w, args[0], "vrt name"), "string", sortString)
@@ -71,19 +73,14 @@ func init() {
 		}
 		nm := w.uniqueName(name)
 		b := make(BStr, n)
-		iv := &inputVar{name: nm, kind: "bytes", n: int(n)}
 		for i := range b {
-			t := w.tf.fresh(sortBV(8), fmt.Sprintf("%s!%d", nm, i))
-			b[i] = t
-			w.inputs = append(w.inputs, &inputVar{name: fmt.Sprintf("%s!%d", nm, i), term: t, kind: "uint8"})
+			b[i] = w.newInput(fmt.Sprintf("%s!%d", nm, i), "uint8", sortBV(8))
 		}
-		_ = iv
-		return b
+		return normStr(b)
 	})
 	reg(vrtPkg+".IntRange", func(w *World, th *Thread, fn *ssa.Function, args []Value) Value {
 		t := w.newInput(concStr(w, args[0], "vrt name"), "int", sortBV(64))
-		lo, hi := args[1].(int64), args[2].(int64)
-		w.vAssume(w.tf.def(sortBool, fmt.Sprintf("(and (bvsle %s %s) (bvsle %s %s))", bvLit(uint64(lo), 64), t.S, t.S, bvLit(uint64(hi), 64))))
+		w.vAssume(w.and(w.binop(token.LEQ, i64, args[1], t), w.binop(token.LEQ, i64, t, args[2])))
 		return t
 	})
 	reg(vrtPkg+".Choose", func(w *World, th *Thread, fn *ssa.Function, args []Value) Value {
@@ -113,6 +110,12 @@ func init() {
 			return blocked
 		}
 		return nil
+	})
+	reg(vrtPkg+".Tier", func(w *World, th *Thread, fn *ssa.Function, args []Value) Value {
+		if w.eng.cfg.Tier == "thorough" {
+			return int64(1)
+		}
+		return int64(0)
 	})
 	reg(vrtPkg+".Symbolic", func(w *World, th *Thread, fn *ssa.Function, args []Value) Value { return true })
 	reg(vrtPkg+".Trace", func(w *World, th *Thread, fn *ssa.Function, args []Value) Value {
@@ -505,6 +508,102 @@ func init() {
 	}
 	reg("errors.New", func(w *World, th *Thread, fn *ssa.Function, args []Value) Value {
 		return w.eng.makeError(w, args[0], nil)
+	})
+
+	reg("errors.Is", func(w *World, th *Thread, fn *ssa.Function, args []Value) Value {
+		err, target := args[0].(Iface), args[1].(Iface)
+		for depth := 0; depth < 20; depth++ {
+			if err.t == nil {
+				return target.t == nil
+			}
+			if target.t != nil && types.Identical(err.t, target.t) && types.Comparable(err.t) {
+				if w.branch(w.equals(err.t, err.v, target.v)) {
+					return true
+				}
+			}
+			if m := w.eng.lookupMethodByName(err.t, "Is"); m != nil && m.Signature.Params().Len() == 1 {
+				if w.branch(w.callSync(m, []Value{err.v, target})) {
+					return true
+				}
+			}
+			m := w.eng.lookupMethodByName(err.t, "Unwrap")
+			if m == nil || m.Signature.Results().Len() != 1 {
+				return false
+			}
+			r := w.callSync(m, []Value{err.v})
+			next, ok := r.(Iface)
+			if !ok {
+				// Unwrap() []error
+				if sl, ok := r.(Slice); ok {
+					for _, e := range sl.a {
+						if w.branch(intrinsics["errors.Is"](w, th, fn, []Value{e, target})) {
+							return true
+						}
+					}
+				}
+				return false
+			}
+			err = next
+		}
+		return false
+	})
+	reg("errors.As", func(w *World, th *Thread, fn *ssa.Function, args []Value) Value {
+		err, target := args[0].(Iface), args[1].(Iface)
+		if target.t == nil {
+			panic(goPanic{"errors: target cannot be nil"})
+		}
+		pt, ok := target.t.(*types.Pointer)
+		if !ok {
+			panic(goPanic{"errors: target must be a non-nil pointer"})
+		}
+		et := pt.Elem()
+		dst := target.v.(Ptr)
+		for depth := 0; depth < 20; depth++ {
+			if err.t == nil {
+				return false
+			}
+			if it, isI := et.Underlying().(*types.Interface); isI {
+				if w.eng.implements(err.t, it) {
+					*dst = err
+					return true
+				}
+			} else if types.Identical(err.t, et) {
+				storeVal(dst, err.v)
+				return true
+			}
+			m := w.eng.lookupMethodByName(err.t, "Unwrap")
+			if m == nil || m.Signature.Results().Len() != 1 {
+				return false
+			}
+			next, ok := w.callSync(m, []Value{err.v}).(Iface)
+			if !ok {
+				return false
+			}
+			err = next
+		}
+		return false
+	})
+	reg("errors.Join", func(w *World, th *Thread, fn *ssa.Function, args []Value) Value {
+		var msg Value = ""
+		n := 0
+		var first Value
+		for _, e := range args[0].(Slice).a {
+			iv := e.(Iface)
+			if iv.t == nil {
+				continue
+			}
+			if n > 0 {
+				msg = w.stringBinop(token.ADD, msg, "\n")
+			} else {
+				first = iv
+			}
+			msg = w.stringBinop(token.ADD, msg, w.errorStringV(iv))
+			n++
+		}
+		if n == 0 {
+			return Iface{}
+		}
+		return w.eng.makeError(w, msg, first)
 	})
 
 	// ---- strconv (native on concrete; SMT on symbolic) ----
